@@ -15,7 +15,7 @@ TGRIDS = [(0, 0.5), (0, 2), (0, 50), (0, 500), (0.5, 0.5), (1, 2), (3, 0.5), (10
 
 def configurations(ctx):
     """Covering array (quick) or a much larger sample of the product (thorough)."""
-    n = ctx.pick(126, 5040)
+    n = ctx.pick(126, 20160)
     for i in range(n):
         rng = ctx.rng("cfg", i)
         interp = WF.INTERPOLATORS[i % 7]
